@@ -359,6 +359,8 @@ def simplify(t):
     if not isinstance(t, tuple):
         return t
     t = tuple(simplify(x) for x in t)
+    if t == ("tuple",):
+        return ("const", ())
     if t and t[0] == "item" and isinstance(t[1], tuple) and t[1] and t[1][0] == "tuple":
         return t[1][1 + t[2]]
     return t
